@@ -80,6 +80,17 @@ static struct wcoll_ctx * wcoll_ctx_create (const char *path)
     return (ctx);
 }
 
+/*
+ *  Create a context whose search path is the single directory [dir],
+ *   taken as it is: a directory name may contain ':' or brackets.
+ */
+static struct wcoll_ctx * wcoll_ctx_create_dir (const char *dir)
+{
+    struct wcoll_ctx *ctx = wcoll_ctx_create ("");
+    list_append (ctx->path_list, Strdup (dir));
+    return (ctx);
+}
+
 static void wcoll_ctx_destroy (struct wcoll_ctx *ctx)
 {
     list_destroy (ctx->path_list);
@@ -351,7 +362,7 @@ hostlist_t read_wcoll(char *file, FILE * f)
 
     get_file_path (file, path, sizeof (path));
 
-    ctx = wcoll_ctx_create (path);
+    ctx = wcoll_ctx_create_dir (path);
 
     /*
      *  Remember the file itself (under the name an #include would find it),
